@@ -554,6 +554,37 @@ pub fn c11_scenario(ch: &mut Chooser, thorough: bool) -> Exec {
     if violation.is_none() && host_fault == "crash-before-run" && *polls[0].borrow() != polls_h_at_crash {
         violation = Some(Violation::new("polled-after-crash", format!("the crashed host's software was polled {} more times after Sim::crash", *polls[0].borrow() - polls_h_at_crash)));
     }
+    // after a software error the same Sim may be driven further: software that has finished
+    // (with Ok or Err) is never polled again, is not reported as running, and stepping on
+    // does not panic (unless some software is scripted to panic)
+    if violation.is_none() && got == RunRes::Err {
+        let at = sim.elapsed().as_millis() as u64;
+        let definitely_finished = |o: Out| o.finish().map(|(t, _)| t + tick <= at).unwrap_or(false);
+        let someone_panics = parts.iter().any(|(o, _)| o.panic_time().is_some());
+        let before: Vec<u64> = polls.iter().map(|p| *p.borrow()).collect();
+        let mut panicked = false;
+        for _ in 0..3 {
+            if vx_core::catch(|| sim.step()).is_err() {
+                panicked = true;
+                break;
+            }
+        }
+        if panicked && !someone_panics {
+            violation = Some(Violation::new("unexpected-panic", format!("{obs}; stepping on after the error was returned panicked: {}", vx_core::take_last_panic().unwrap_or_default())));
+        } else if !panicked {
+            for (i, (o, _)) in parts.iter().enumerate() {
+                if *o != Out::Absent && definitely_finished(*o) && *polls[i].borrow() != before[i] {
+                    violation = Some(Violation::new(
+                        "polled-after-finish",
+                        format!("{obs}; software #{i} ({o:?}) had finished before the error was returned at {at}ms but was polled {} more times by later steps", *polls[i].borrow() - before[i]),
+                    ));
+                }
+            }
+            if violation.is_none() && h_eff != Out::Absent && definitely_finished(h_eff) && vx_core::catch(|| sim.is_host_running("h")).unwrap_or(true) {
+                violation = Some(Violation::new("still-running", format!("{obs}; host h finished at {:?} but is_host_running is still true at {at}ms", h_eff.finish())));
+            }
+        }
+    }
     // a second run after registering another client continues from where the first stopped
     if violation.is_none() && matches!(got, RunRes::Ok(_)) && !no_clients && !by_step {
         let before = sim.elapsed();
